@@ -1,6 +1,6 @@
 (* Line-oriented entry point of the executable model: run "cmd sexp" = answer line. *)
 From Coq Require Import String Ascii List Bool Arith NArith ZArith.
-From Wrap Require Import Base.Str Base.ListX Syntax.Ast Syntax.Sexp Syntax.Codec Syntax.Print Inst.Model Inst.Proj Pybind.Items Pybind.Gen Pybind.Render Matlab.Ids Matlab.Arity Matlab.Files Xml.Escape Xml.Doc Runtime.Mx.
+From Wrap Require Import Base.Str Base.ListX Syntax.Ast Syntax.Sexp Syntax.Codec Syntax.Print Inst.Model Inst.Proj Pybind.Items Pybind.Gen Pybind.Render Matlab.Ids Matlab.Arity Matlab.Files Xml.Escape Xml.Doc Runtime.Mx Runtime.Gateway.
 Import ListNotations.
 Open Scope string_scope.
 
@@ -296,6 +296,59 @@ Definition run_mx (x : sexp) : string :=
   | _ => "badshape"
   end.
 
+(* ---- C11 ---- *)
+(* gateway (((name base? virtual)...) (op...)) with objects named by creation index ->
+   per step: (collector sizes per class) (live objects per dynamic class) double-free within-protocol *)
+Definition d_cinfo (x : sexp) : option cinfo :=
+  match x with
+  | SList [Atom n; b; v] =>
+    match d_opt d_str b, d_bool v with
+    | Some b', Some v' => Some {| ci_name := n; ci_base := b'; ci_virtual := v' |}
+    | _, _ => None
+    end
+  | _ => None
+  end.
+Definition d_gop (objmap : list nat) (x : sexp) : option gop :=
+  match x with
+  | SList [Atom "new"; m; Atom c] => option_map (fun m' => Construct m' c) (d_nat m)
+  | SList [Atom "recv"; m; Atom c; i; v] =>
+    match d_nat m, d_nat i, d_bool v with
+    | Some m', Some i', Some v' => match nth_error objmap i' with Some o => Some (Receive m' c o v') | None => None end
+    | _, _, _ => None
+    end
+  | SList [Atom "make"; m; Atom c; Atom d; v] =>
+    match d_nat m, d_bool v with Some m', Some v' => Some (Make m' c d v') | _, _ => None end
+  | SList [Atom "del"; m] => option_map Delete (d_nat m)
+  | SList [Atom "unload"] => Some Unload
+  | _ => None
+  end.
+Definition creates (op : gop) : bool := match op with Construct _ _ | Make _ _ _ _ => true | _ => false end.
+Definition run_gateway (x : sexp) : string :=
+  match x with
+  | SList [cl; SList ops] =>
+    match d_list d_cinfo cl with
+    | Some classes =>
+      let names := map ci_name classes in
+      let '(outs, _, _) :=
+          fold_left (fun acc o =>
+                       let '(os, st, objmap) := acc in
+                       match d_gop objmap o with
+                       | None => ((os ++ [Atom "badop"])%list, st, objmap)
+                       | Some op =>
+                         let ok := op_ok st op in
+                         let objmap' := if creates op then (objmap ++ [g_next st])%list else objmap in
+                         let st' := step classes st op in
+                         let obs := SList [SList (map (fun n => Atom (nat_dec (collector_size st' n))) names);
+                                           SList (map (fun n => Atom (nat_dec (live_of_class st' n))) names);
+                                           e_bool (double_free st'); e_bool ok] in
+                         ((os ++ [obs])%list, st', objmap')
+                       end) ops ([], ginit, []) in
+      "ok " ++ print (SList outs)
+    | None => "baddecode"
+    end
+  | _ => "badshape"
+  end.
+
 Definition run (line : string) : string :=
   let '(cmd, rest) := split_cmd line EmptyString in
   match read rest with
@@ -312,6 +365,7 @@ Definition run (line : string) : string :=
     else if String.eqb cmd "xmldoc" then run_xmldoc x
     else if String.eqb cmd "literal" then run_literal x
     else if String.eqb cmd "mx" then run_mx x
+    else if String.eqb cmd "gateway" then run_gateway x
     else if String.eqb cmd "echo" then print x
     else "badcmd"
   end.
